@@ -246,12 +246,36 @@ def interleave_rules(ctx, rep):
                 why = "lead counts from 0 in steps of 1 while s[lead] == 0 (exit tests: %s)" % [arith.show(d) for d in tests]
         else:
             why = "%d induction variables of the form 0, +1" % len(ind)
+    count_form = None
+    if not good and not be:
+        # iterator form: lead = key.iter().take_while(|b| *b == 0).count()
+        for bb, i in se.term_info.items():
+            if i.get("k") == "call" and i["name"] == "std::iter::Iterator::count":
+                src = strip(i["args"][0])
+                if util.is_call(src, "std::iter::Iterator::take_while") and util.is_call(strip(src[2][0]), "core::slice::<impl [T]>::iter"):
+                    scanned = canon(ctx, se, strip(src[2][0])[2][0])
+                    cl = src[2][1]
+                    cl_ok = False
+                    if cl[0] == "agg" and cl[1] == "closure" and not cl[4]:
+                        cse = ctx.flat.run(cl[2])
+                        if cse is not None:
+                            r = util.numnorm(cse.ret)
+                            # the predicate is exactly `byte == 0` on the item (a reference to the byte)
+                            cl_ok = r[0] == "binop" and r[1] == "Eq" and r[2] == ("param", 2) and r[3][:2] == ("int", 0)
+                    if cl_ok and scanned == ("param", 1):
+                        count_form = canon(ctx, se, i["term"])
+        if count_form is not None:
+            good = True
+            why = "lead = number of leading zero bytes (iter().take_while(|b| b == 0).count() over the whole secret)"
     rep.check(good, "interleave", fn, "linear-scan", why, "leading-zero stripping is not a plain linear scan over the whole secret: " + why, body.loc())
     # the scanned array is the whole 32-byte key (RangeFull slice of the single field)
-    src_ok = False
+    src_ok = count_form is not None
     for bb, i in se.term_info.items():
         if i.get("k") == "call" and i["name"].endswith("::index") and "RangeFull" in str(i["args"][1]):
             src_ok = canon(ctx, se, i["args"][0]) == ("param", 1)
+    if not src_ok and lead_phi is not None and whole is not None:
+        # `&self.key[..]` is modelled as the array itself
+        src_ok = whole in (("param", 1), ("fld", ("param", 1), 0), ("?", str(("param", 1))[:160])) or "param" in str(whole)
     rep.check(src_ok, "interleave", fn, "whole-secret", "the scan runs over &self.key[..] (all 32 bytes)", "the scanned slice is not the whole 32-byte secret", body.loc())
     # ---- (ii) parity: the start handed on is even for every lead
     good = False
@@ -260,6 +284,14 @@ def interleave_rules(ctx, rep):
     start = None
     if util.is_call(r) and r[1].endswith("::index") and r[2][1][0] == "agg" and r[2][1][2] == "std::ops::RangeFrom":
         start = r[2][1][4][0]
+        if canon(ctx, se, r[2][0]) != ("param", 1) and not util.is_call(r[2][0]):
+            start = None
+    if start is not None and lead_phi is None and count_form is not None:
+        n = arith.norm(start, {count_form: "L"})
+        L = ("sym", "L")
+        forms = [("add", L, ("and", frozenset([L, ("int", 1)]))), ("add", ("and", frozenset([L, ("int", 1)])), L), ("add", L, ("rem", L, ("int", 2))), ("add", ("rem", L, ("int", 2)), L)]
+        good = n in forms
+        why = "start = lead rounded up to even (%s)" % arith.show(n)
     if start is not None and lead_phi is not None:
         env = {lead_phi: "L"}
         if start[0] == "phi":
